@@ -173,8 +173,10 @@ def judge(prop, mod, tier, seed, outs, wall, replay=False):
         else:
             unknown.append(v)
 
-    os.makedirs(os.path.join(VERIF, 'replays'), exist_ok=True)
-    os.makedirs(os.path.join(VERIF, 'evidence'), exist_ok=True)
+    alt = os.path.realpath(bootstrap.REPO) != os.path.realpath('/repo')
+    out_root = os.path.join(bootstrap.SCRATCH_ROOT, 'alt-out') if alt else VERIF
+    os.makedirs(os.path.join(out_root, 'replays'), exist_ok=True)
+    os.makedirs(os.path.join(out_root, 'evidence'), exist_ok=True)
     lines = []
     for fid, d in known_seen.items():
         f = findings[fid]
@@ -188,7 +190,7 @@ def judge(prop, mod, tier, seed, outs, wall, replay=False):
         w['property'] = prop
         w['seed'] = seed
         w['tier'] = tier
-        with open(os.path.join(VERIF, path), 'w') as f:
+        with open(os.path.join(out_root, path), 'w') as f:
             json.dump(w, f, indent=1, default=repr)
         replay_paths.append(path)
         lines.append('VIOLATION property=%s replay=%s' % (prop, path))
@@ -224,7 +226,7 @@ def judge(prop, mod, tier, seed, outs, wall, replay=False):
         'violations': len(unknown),
     }
     if not replay:
-        with open(os.path.join(VERIF, 'evidence', prop + '.json'), 'w') as f:
+        with open(os.path.join(out_root, 'evidence', prop + '.json'), 'w') as f:
             json.dump(ev, f, indent=1, default=repr, sort_keys=True)
     print('OBSERVED property=%s tier=%s seed=%s evaluations=%d distinct=%d '
           'shards=%d wall=%.1fs' % (prop, tier, seed, evaluations,
